@@ -96,8 +96,9 @@ class Lib(Builtins):
         from .contracts import GHOSTS
         allowed_ghosts = {m[1] for m in parsed if m[0] == 'ghost'}
         goals = []
+        from .contracts import OBSERVERS
         for g in GHOSTS:
-            if g in allowed_ghosts:
+            if g in allowed_ghosts or g in OBSERVERS:
                 continue
             a, b = p.ghost.get(g), entry.ghost.get(g)
             if a is b:
@@ -565,7 +566,10 @@ def _spec_call(self, sp, name, args, ctx):
         # no heap location and no ghost variable differs from the entry state
         from .contracts import GHOSTS
         conj = [ctx.heap[k] == ctx.old_heap[k] for k in ctx.heap if not ctx.heap[k].eq(ctx.old_heap[k])]
+        from .contracts import OBSERVERS
         for g in GHOSTS:
+            if g in OBSERVERS:
+                continue
             a, b = ctx.ghost.get(g), ctx.old_ghost.get(g)
             if a is not None and b is not None and a is not b:
                 conj.append(same(a, b))
